@@ -3,7 +3,7 @@ by the real code; TLC judges (input view, step list, output view)."""
 import json
 
 from harness import core, project as P
-from harness.common import pmap, build, score_abs
+from harness.common import pmap, build, score_abs, via
 
 core.import_scoda()
 from scoda.misc.util import get_default_step_sizes  # noqa: E402
@@ -13,7 +13,7 @@ def execute(case):
     idx, score, steps = case
     line = {"steps": steps, "in": [], "out": [], "raised": "", "case": {"score": score, "steps": steps}}
     try:
-        seq = build(score, "abs" if idx % 2 == 0 else "rel")
+        seq = build(score, via(idx))
         line["in"] = P.raw_abs(seq)
         seq.quantise(list(steps))
         line["out"] = P.raw_abs(seq)
